@@ -263,6 +263,7 @@ class Extractor(object):
         self._loop_id = 0
         self._alloc = 0
         self.locals_alloc = {}
+        self._exit_envs = {}
         self.params = [a.arg for a in func_node.args.posonlyargs + func_node.args.args + func_node.args.kwonlyargs]
         if func_node.args.vararg:
             self.params.append(func_node.args.vararg.arg)
@@ -570,6 +571,8 @@ class Extractor(object):
             return True, env, ()
         if isinstance(s, (ast.Break, ast.Continue)):
             self.emit("break" if isinstance(s, ast.Break) else "continue", None, None, guards, loops, s)
+            if loops:
+                self._exit_envs.setdefault(loops[-1][0], []).append(dict(env))
             return False, None, ()
         if isinstance(s, ast.Assert):
             E(s.test)
@@ -609,9 +612,35 @@ class Extractor(object):
                 lp = loops + ((lid, ("unary", "while", test)),)
                 g2 = guards + ((test, True),)
             ft, env_after = self.block(s.body, env_body, g2, lp)
-            # after the loop: zero iterations (pre env) or some iterations (body env); break/continue paths are
-            # approximated by the body env at its end merged with the pre env
-            merged = self.merge([env, env_after if ft else None] + [e for e in self._loop_exit_envs(lid)])
+            # after the loop: zero iterations (pre env), the body's end, or the environment at a break/continue
+            outs = [env_after if ft else None] + self._exit_envs.get(lid, [])
+            resolved = []
+            for o in outs:
+                if o is None:
+                    continue
+                o2 = {}
+                for n, v in o.items():
+                    # a variable the path did not touch still holds "pre-loop value or previous iteration's value";
+                    # seen from after the loop that is simply one of the other reaching definitions
+                    pre = env.get(n)
+                    unchanged = ("carried", n, lid) if pre is None else ("phi", (pre, ("carried", n, lid)))
+                    if v == unchanged:
+                        if pre is not None:
+                            o2[n] = pre
+                        # no pre-loop value and untouched on this path: contributes nothing
+                        continue
+                    o2[n] = v
+                resolved.append(o2)
+            names = set()
+            for o in resolved:
+                names |= set(o)
+            merged_in = [env]
+            for o in resolved:
+                # variables absent from a resolved env fall back to the pre-loop value (or stay undefined)
+                full = dict(env)
+                full.update(o)
+                merged_in.append(full)
+            merged = self.merge(merged_in)
             if s.orelse:
                 ft2, merged2 = self.block(s.orelse, merged, guards, loops)
                 if ft2:
@@ -657,9 +686,6 @@ class Extractor(object):
         # unsupported statement kinds (match, async ...) -- make it visible
         self.emit("unsupported", None, ("unknown", type(s).__name__), guards, loops, s)
         return True, env, ()
-
-    def _loop_exit_envs(self, lid):
-        return []
 
 
 def extract(func_node):
